@@ -388,7 +388,10 @@ class Oracle:
                         cs.pop("pending_move", None)
             else:
                 if op == "copen":
-                    self.cur[int(f[1])] = {"db": dslot, "last": None, "stable": None, "cur": None}
+                    if o and o[0] == "OK":
+                        self.cur[int(f[1])] = {"db": dslot, "last": None, "stable": None, "cur": None}
+                    else:
+                        self.cur.pop(int(f[1]), None)
                 return
         if op == "open":
             self.rdonly = f[3] == "1"
@@ -948,7 +951,7 @@ def clean(lines):
             break
 
 
-def drive(run, profile, nscripts, nops, theorem_pid=None, asan=False, reopen=False, extra_check=None, audit=False, geometry=0):
+def drive(run, profile, nscripts, nops, theorem_pid=None, asan=False, reopen=False, extra_check=None, audit=False, geometry=0, boundary=0, bigfile=0):
     """common body of the KV checks"""
     proofs_ok = run.proofs(theorem_pid or run.pid)
     impl = vlib.build_harness("h_kv", "asan" if asan else "plain")
@@ -981,6 +984,18 @@ def drive(run, profile, nscripts, nops, theorem_pid=None, asan=False, reopen=Fal
             rng = run.rng.fork()
             ls, meta = geometry_script(rng, os.path.join(work, "g%d.db" % n), wal=rng.below(2))
             scripts.append(("geom%d" % n, ls, meta))
+        for n in range(bigfile or 0):
+            rng = run.rng.fork()
+            ls, meta = bigfile_script(rng, os.path.join(work, "big%d.db" % n))
+            scripts.append(("bigfile%d" % n, ls, meta))
+        for n in range(204 if boundary else 0):
+            rng = run.rng.fork()
+            ls, meta = slack_script(n, rng, os.path.join(work, "k%d.db" % n), wal=rng.below(2))
+            scripts.append(("slack%d" % n, ls, meta))
+        for n in range((boundary or 0) * mult):
+            rng = run.rng.fork()
+            ls, meta = boundary_script(rng, os.path.join(work, "b%d.db" % n), wal=rng.below(2))
+            scripts.append(("bound%d" % n, ls, meta))
         for n in range(nscripts * mult):
             rng = run.rng.fork()
             path = os.path.join(work, "s%d.db" % n)
@@ -991,7 +1006,7 @@ def drive(run, profile, nscripts, nops, theorem_pid=None, asan=False, reopen=Fal
             final, outs, orc, rc, err = execute(impl, ls, meta["modes"], env=env, auditor=auditor)
             crashed = rc not in (0, None) or (outs and outs[-1] is None)
             nontriv = sum(1 for l in final if l.split()[0] in ("put", "del", "cset", "cdel")) > 20
-            run.case("\n".join(final), nontrivial=nontriv,
+            run.case(hashlib.sha256("\n".join(final).encode()).hexdigest(), nontrivial=nontriv,
                      sample={"script": name, "ops": len(final), "modes": meta["modes"], "first_lines": final[:6]})
             for l in final:
                 run.dist(l.split()[0])
@@ -1079,6 +1094,118 @@ def geometry_script(rng, path, wal=0):
         L.append("cpeek %d" % c)
     L += ["dump 0", "rdump 0", "struct 0", "close"]
     return L, {"modes": ["000"], "wal": wal}
+
+
+def boundary_script(rng, path, wal=0):
+    """directed scripts at the format boundaries of one node / data block:
+    (a) keys around the 115-byte cached prefix: short and long keys sharing their first 115 bytes, the head key deleted
+        and re-inserted so that the cached prefix and its 'full key' flag must be recomputed both ways;
+    (b) pair lengths around the varint boundaries (127/128, 16383/16384): values overwritten in place growing and
+        shrinking by one or two bytes until the data block has no spare byte."""
+    L = ["open %s %d 0 1 0" % (path, wal), "db 0 1 000"]
+    kind = rng.choice(["prefix", "prefix", "varint", "varint", "mixed"])
+    keys = []
+    if kind in ("prefix", "mixed"):
+        common = rng.bytes(1) * rng.choice([112, 113, 114, 115, 116])
+        for i in range(rng.choice([3, 6, 12])):
+            keys.append(common + rng.bytes(rng.choice([0, 1, 2, 3, 40])) + bytes([65 + i]))
+        for i in range(rng.choice([1, 2, 4])):
+            keys.append(rng.choice([b"zzz", b"\xff\xff", common[:rng.choice([3, 60, 114, 115])] + b"\xff"]) + bytes([48 + i]))
+        keys = list(dict.fromkeys(k for k in keys if k))
+        for k in keys:
+            L.append("put 0 %s 0 %s 0 0" % (hexb(k), hexb(rng.bytes(rng.choice([1, 5, 20])))))
+        L.append("struct 0")
+        order = sorted(keys, reverse=True)
+        for rnd in range(rng.choice([2, 4, 8])):
+            # remove the current head (greatest key) or another key, look everything up, sometimes put it back
+            victim = order[0] if rng.chance(2, 3) else rng.choice(order)
+            L.append("del 0 %s 0" % hexb(victim))
+            order.remove(victim)
+            for k in keys:
+                L.append("get 0 %s 0" % hexb(k))
+            if order:
+                L.append("put 0 %s 0 %s 1 0" % (hexb(rng.choice(order)), hexb(rng.bytes(3))))     # NO_OVERWRITE on a present key
+            L.append("struct 0")
+            if rng.chance(1, 2):
+                L.append("put 0 %s 0 %s 0 0" % (hexb(victim), hexb(rng.bytes(4))))
+                order = sorted(order + [victim], reverse=True)
+            if not order:
+                break
+    if kind in ("varint", "mixed"):
+        ks = [bytes([97 + i]) for i in range(rng.choice([3, 4, 6]))]
+        base = rng.choice([126, 126, 125, 127, 16380])
+        size = {k: base for k in ks}
+        for k in ks:
+            L.append("put 0 %s 0 %s 0 0" % (hexb(k), hexb(rng.bytes(base))))
+        for rnd in range(rng.choice([6, 12, 30])):
+            k = rng.choice(ks)
+            size[k] = max(1, size[k] + rng.choice([-2, -1, -1, 1, 1, 2]))
+            L.append("put 0 %s 0 %s 0 0" % (hexb(k), hexb(rng.bytes(size[k]))))
+            if rng.chance(1, 4):
+                extra = bytes([48 + rng.below(10)])
+                L.append("put 0 %s 0 %s 0 0" % (hexb(extra), hexb(rng.bytes(rng.choice([1, 53, 60])))))
+            if rng.chance(1, 3):
+                for kk in ks:
+                    L.append("get 0 %s 0" % hexb(kk))
+                L.append("struct 0")
+    L += ["dump 0", "rdump 0", "struct 0", "close", "open %s %d 0 0 0" % (path, wal), "db 0 1 000", "dump 0", "struct 0", "close"]
+    return L, {"modes": ["000"], "wal": wal}
+
+
+def slack_script(n, rng, path, wal=0):
+    """sweep of the spare space of one data block: three values at a varint boundary shrunk in place, a filler of size
+    30+n%51 eats the slack, then the values grow back in place (the index entry of each widens by one byte)."""
+    L = ["open %s %d 0 1 0" % (path, wal), "db 0 1 000"]
+    base, d, nk = [(126, 1, 3), (126, 2, 3), (127, 1, 3), (126, 1, 4)][(n // 51) % 4]
+    ks = [b"a", b"b", b"c", b"e"][:nk]
+    for k in ks:
+        L.append("put 0 %s 0 %s 0 0" % (hexb(k), hexb(rng.bytes(base))))
+    for k in ks:
+        L.append("put 0 %s 0 %s 0 0" % (hexb(k), hexb(rng.bytes(base - d))))
+    L.append("put 0 %s 0 %s 0 0" % (hexb(b"d"), hexb(rng.bytes(30 + n % 51))))
+    for k in ks:
+        L.append("put 0 %s 0 %s 0 0" % (hexb(k), hexb(rng.bytes(base))))
+    for k in ks + [b"d"]:
+        L.append("get 0 %s 0" % hexb(k))
+    L += ["struct 0", "dump 0", "close"]
+    return L, {"modes": ["000"], "wal": wal}
+
+
+def bigfile_script(rng, path):
+    """a store that outgrows its first free-space bitmap (> 4 MB), with free extents of many sizes, closed with trim
+    (the bitmap is relocated towards the start of the file) and reopened in every mode"""
+    wal = rng.below(2)
+    L = ["open %s %d 0 1 0" % (path, wal), "db 0 1 000", "db 1 2 100"]
+    # metadata areas of odd block counts leave free extents that start off a page boundary when they shrink
+    metas = [rng.range(1, 120) for _ in range(2)]
+    L.append("setmeta 0 %s" % hexb(bytes([7]) * (metas[0] * 128)))
+    n = rng.choice([560, 620, 700])
+    vals = {}
+    for i in range(n):
+        k = b"big%04d" % i
+        sz = rng.choice([7000, 8000, 8100, 9000])
+        L.append("put 0 %s 0 %s 0 0" % (hexb(k), hexb(bytes([i % 251]) * sz)))
+    for i in range(40):
+        L.append("put 1 %s 0 %s 0 0" % (hexb((i * 77).to_bytes(8, "little")), hexb(rng.bytes(rng.choice([3, 300])))))
+    L.append("setmeta 1 %s" % hexb(rng.bytes(500)))
+    # holes of many sizes: delete runs, re-put smaller / larger values
+    i = 0
+    while i < n:
+        run_len = rng.choice([1, 1, 2, 3, 5, 8])
+        if rng.chance(2, 3):
+            for j in range(i, min(n, i + run_len)):
+                L.append("del 0 %s 0" % hexb(b"big%04d" % j))
+        i += run_len + rng.choice([0, 1, 2])
+    L.append("setmeta 0 %s" % hexb(bytes([9]) * rng.choice([1, 100, 128 * max(1, metas[0] // 3)])))
+    for i in range(rng.choice([0, 30, 120])):
+        L.append("put 0 %s 0 %s 0 0" % (hexb(b"sm%04d" % i), hexb(rng.bytes(rng.choice([10, 100, 1000, 3000])))))
+    L += ["dump 1", "getmeta 1 1024", "close"]
+    for rd, w2 in ((1, wal), (0, 1 - wal), (0, wal)):
+        L += ["open %s %d %d 0 %d" % (path, w2, rd, rng.below(2)), "db 0 1 000", "db 1 2 100", "dump 0", "dump 1", "getmeta 1 1024"]
+        if not rd:
+            L += ["put 0 %s 0 %s 0 0" % (hexb(b"after"), hexb(rng.bytes(5000))), "del 0 %s 0" % hexb(b"big%04d" % rng.below(n))]
+        L += ["struct 1", "close"]
+    return L, {"modes": ["000", "100"], "wal": wal}
 
 RULE = ("operation scripts generated from VERIF_SEED (key pools that fill nodes beyond 32 records, shared prefixes of 113..116 bytes, "
         "keys that are prefixes of one another, compound suffixes, integer/real-number keys, values 0..9000 bytes, forced skip-list levels); "
